@@ -43,10 +43,13 @@ type Config struct {
 	Mask       int  `json:"tracked_mask"`
 	SyncSchema bool `json:"sync_schema"`
 	Shallow    bool `json:"shallow"`
+	// DeepHello (shallow clocks only): the previous snapshot is what RemoteHello leaves behind - the
+	// DEEP clock in the mirror and in the server's memorized push - instead of a flattened 0/1 snapshot
+	DeepHello bool `json:"deep_hello,omitempty"`
 }
 
 func (c Config) String() string {
-	return fmt.Sprintf("n=%d mask=%b schema=%v shallow=%v", c.N, c.Mask, c.SyncSchema, c.Shallow)
+	return fmt.Sprintf("n=%d mask=%b schema=%v shallow=%v deepHello=%v", c.N, c.Mask, c.SyncSchema, c.Shallow, c.DeepHello)
 }
 
 func names(n int) am.S {
@@ -169,7 +172,7 @@ func (r *rig) serverData(s Snap) *arpc.VerifData {
 func (r *rig) helloFor(s Snap) *arpc.MsgSrvHello {
 	exp := &am.Serialized{QueueTick: s.Q}
 	t := append(am.Time{}, s.Time...)
-	if r.cfg.Shallow {
+	if r.cfg.Shallow && !r.cfg.DeepHello {
 		t = am.NewTime(t, t.ActiveStates(nil))
 	}
 	if !r.cfg.SyncSchema {
@@ -195,6 +198,14 @@ func (r *rig) helloFor(s Snap) *arpc.MsgSrvHello {
 
 // lastPushFor: what the server memorised after the hello / previous push of s.
 func (r *rig) lastPushFor(s Snap) *arpc.VerifData {
+	if r.cfg.Shallow && r.cfg.DeepHello {
+		// as RemoteHello memorizes it: the (tracked-space) deep clock and the deep tracked sum
+		h := r.helloFor(s)
+		mTime := append(am.Time{}, h.Serialized.Time...)
+		sum := append(am.Time{}, s.Time...).Filter(r.tIdx).Sum(nil)
+		return &arpc.VerifData{Time: mTime, TrackedTimeSum: sum, QueueTick: s.Q, MachTick: s.M,
+			Checksum: arpc.Checksum(sum, s.Q, s.M), Tracked: r.tracked, TrackedIdxs: r.tIdx}
+	}
 	return r.serverData(s)
 }
 
@@ -309,6 +320,7 @@ func configs(maxN int) []Config {
 				for _, sh := range []bool{false, true} {
 					r = append(r, Config{N: n, Mask: mask, SyncSchema: ss, Shallow: sh})
 				}
+				r = append(r, Config{N: n, Mask: mask, SyncSchema: ss, Shallow: true, DeepHello: true})
 			}
 		}
 	}
@@ -392,6 +404,7 @@ func TestBoundaries(t *testing.T) {
 	rapid.Check(t, func(t *rapid.T) {
 		n := rapid.IntRange(1, 4).Draw(t, "n")
 		cfg := Config{N: n, Mask: rapid.IntRange(1, 1<<uint(n)-1).Draw(t, "mask"), SyncSchema: rapid.Bool().Draw(t, "schema"), Shallow: rapid.Bool().Draw(t, "shallow")}
+		cfg.DeepHello = cfg.Shallow && rapid.Bool().Draw(t, "deepHello")
 		r, err := newRig(cfg)
 		if err != nil {
 			t.Fatal(err)
